@@ -351,6 +351,20 @@ func (v *TV) show() string {
 	return v.T + "(" + v.X + ")"
 }
 
+// floatExact: decimal text of a binary float.  A float denotes its shortest
+// round-trip decimal (what encoding/json prints, what a user means by the
+// float64 0.1); but at 2^53 and beyond every float is an integer and the
+// shortest text pads with zeros that are not there (2^63 would become
+// 9223372036854776000), so there the exact integer is used.
+func floatExact(x float64) string {
+	if math.Abs(x) >= 1<<53 {
+		if i, acc := new(big.Float).SetFloat64(x).Int(nil); acc == big.Exact {
+			return i.String()
+		}
+	}
+	return strconv.FormatFloat(x, 'e', -1, 64)
+}
+
 // fromGo projects a Go value returned by (or passed to) the library.
 // Anything that is not plain JSON data becomes a "foreign"/"nonfinite"/
 // "badutf8" node, which no admissible value ever equals.
@@ -376,12 +390,12 @@ func fromGo(x any) *TV {
 		if math.IsNaN(x) || math.IsInf(x, 0) {
 			return &TV{T: "nonfinite", X: fmt.Sprint(x)}
 		}
-		return numTV(strconv.FormatFloat(x, 'e', -1, 64))
+		return numTV(floatExact(x))
 	case float32:
 		if math.IsNaN(float64(x)) || math.IsInf(float64(x), 0) {
 			return &TV{T: "nonfinite", X: fmt.Sprint(x)}
 		}
-		return numTV(strconv.FormatFloat(float64(x), 'e', -1, 32))
+		return numTV(floatExact(float64(x)))
 	case int:
 		return numTV(strconv.FormatInt(int64(x), 10))
 	case int8:
@@ -661,14 +675,14 @@ func numCarrier(v *TV, kind string) (any, bool) {
 		if err != nil {
 			return nil, false
 		}
-		// exactly representable?
-		bits := 64
+		// exactly representable in binary?  (the shortest round-trip text is
+		// not enough: 0.1 round-trips but is not the value 1/10)
 		if kind == "float32" {
-			bits = 32
 			f = float64(float32(f))
 		}
-		back := numTV(strconv.FormatFloat(f, 'e', -1, bits))
-		if back.T != "num" || !numEq(back, v) {
+		want, ok := new(big.Rat).SetString(text)
+		have := new(big.Rat)
+		if !ok || math.IsInf(f, 0) || math.IsNaN(f) || have.SetFloat64(f) == nil || have.Cmp(want) != 0 {
 			return nil, false
 		}
 		if kind == "float32" {
